@@ -396,6 +396,199 @@ def task_roundtrip(conv, just, alpha, spaces, atmos, pair, N):
 
 
 # ---------------------------------------------------------------------------
+# inversion: column_name / layer_name of the block names of a geometry whose column and
+# layer names are ANY names over letters, digits and blanks (not only generator names)
+
+NAME_CHARS = ascii_lowercase + ascii_uppercase + '0123456789 '
+
+def task_inversion(conv, n):
+    """A geometry with n layers and n columns whose names are symbolic over
+    letters, digits and blanks (such names come from geometry files, rename_column /
+    rename_layer, numeric column names).  For the block of (last layer, last column):
+    five characters, and column_name / layer_name give back exactly the column and
+    layer it was built from - also when block_name() repaired the name with
+    fix_blockname() (digit, blank, digit -> digit, '0', digit).  Precondition for
+    n = 2: the blocks of the geometry have pairwise different names (a geometry
+    whose layers ' 1' and '01' both meet a column ending in a digit has duplicate
+    block names whatever the inversion does)."""
+    M = _load().mulgrids
+    name = 'inversion/conv%d/n%d' % (conv, n)
+    ob = Ob('inversion/conv%d' % conv)          # same failure key whatever the size of the geometry
+    cfg = dict(task='inversion', conv=conv)
+    LL, CL = name_length('layer', conv), name_length('column', conv)
+
+    def raw_of(l, c_):
+        lc, cc = [x.code for x in l.cells], [x.code for x in c_.cells]
+        return (cc + lc) if conv in (0, 3) else (lc + cc)
+
+    def h(c):
+        g = M.mulgrid(convention=conv, atmos_type=2)
+        lays = [sym_name(c, 'l%d' % q, LL, chars=NAME_CHARS) for q in range(n)]
+        cols = [sym_name(c, 'c%d' % q, CL, chars=NAME_CHARS) for q in range(n)]
+        for a, b in itertools.combinations(lays, 2): c.add(z3.Not(eq_expr(a, b)))
+        for a, b in itertools.combinations(cols, 2): c.add(z3.Not(eq_expr(a, b)))
+        blocks = [fix_oracle(raw_of(a, b)) for a in lays for b in cols]
+        for a, b in itertools.combinations(blocks, 2):
+            c.add(z3.Or(*[x != y for x, y in zip(a, b)]))
+        rp = lambda m: dict(cfg, layers=[model_text(m, x) for x in lays], columns=[model_text(m, x) for x in cols])
+        try:
+            for q, x in enumerate(lays): g.add_layer(M.layer(x, -1.0 - q, -0.5 - q, -1.0 * q))
+            for q, x in enumerate(cols): g.add_column(M.column(x, [], M.np.array([1.0 * q, 0.0]), 0.0))
+            l, col = lays[-1], cols[-1]
+            blk = g.block_name(l, col)
+            cn, ln = g.column_name(blk), g.layer_name(blk)
+        except Exception as ex:
+            ob.fail(c, 'unexpected-exception', rp, 'raised %s: %s' % (type(ex).__name__, ex))
+            return 'exception'
+        raw = raw_of(l, col)
+        repaired = z3.And(is_digit(raw[2]), raw[3] == 32, is_digit(raw[4]))
+        ob.prove(c, isinstance(blk, (str, SStr)) and len(blk) == 5, 'five-characters', rp, 'block name is not five characters long')
+        ob.prove(c, codes_equal(blk, fix_oracle(raw)), 'is-repaired-concatenation', rp,
+                 'block name is not fix_blockname(layer and column name joined in the order of the convention)')
+        ob.prove(c, z3.Implies(z3.Not(repaired), eq_expr(cn, col)), 'column-part', rp, 'column_name(block_name(l, c)) != c (name needed no repair)')
+        ob.prove(c, z3.Implies(z3.Not(repaired), eq_expr(ln, l)), 'layer-part', rp, 'layer_name(block_name(l, c)) != l (name needed no repair)')
+        ob.prove(c, z3.Implies(repaired, eq_expr(cn, col)), 'repaired-name/column-part', rp,
+                 'column_name(block_name(l, c)) != c for a block name that block_name() repaired (blank between two digits became 0)')
+        ob.prove(c, z3.Implies(repaired, eq_expr(ln, l)), 'repaired-name/layer-part', rp,
+                 'layer_name(block_name(l, c)) != l for a block name that block_name() repaired (blank between two digits became 0)')
+        if c.solve(repaired, full=True)[0] == 'sat': witnesses.append(1)
+        if len(ob.samples) < 1:
+            ob.samples.append(dict(task=name, layer=repr(l), column=repr(col), block=repr(blk)[:200]))
+        return 'checked'
+
+    witnesses = []
+    res = sym.explore(h, sym.Ctx(timeout_ms=60000), max_paths=20000)
+    tr = ob.result(name, res, extra=dict(repaired_name_witness_paths=len(witnesses)))
+    if not witnesses and not tr.get('error'):
+        tr['error'] = 'vacuous: no path has a block name that block_name() repairs'
+    return tr
+
+
+# ---------------------------------------------------------------------------
+# gmsh: the names of a geometry that from_gmsh() constructs (tiny mesh: 2 quadrilaterals, 6 nodes)
+
+TINY_MSH = """$MeshFormat
+2.2 0 8
+$EndMeshFormat
+$Nodes
+6
+1 0 0 0
+2 10 0 0
+3 20 0 0
+4 0 10 0
+5 10 10 0
+6 20 10 0
+$EndNodes
+$Elements
+2
+1 3 2 0 1 1 2 5 4
+2 3 2 0 1 2 3 6 5
+$EndElements
+"""
+
+def tiny_msh_path():
+    """one shared file in the temp directory (same content for every run; written atomically when missing)"""
+    import os, tempfile
+    path = os.path.join(tempfile.gettempdir(), 'c17_tiny_mesh.msh')
+    try:
+        with open(path) as fh: ok = fh.read() == TINY_MSH
+    except OSError:
+        ok = False
+    if not ok:
+        tmp = '%s.%d' % (path, os.getpid())
+        with open(tmp, 'w') as fh: fh.write(TINY_MSH)
+        os.replace(tmp, path)
+    return path
+
+class _Rec(object):
+    def __init__(self, **kw): self.__dict__.update(kw)
+
+def tiny_layermesh(np):
+    """duck-typed Layermesh mesh with the geometry of TINY_MSH and two layers"""
+    xy = [(0., 0.), (10., 0.), (20., 0.), (0., 10.), (10., 10.), (20., 10.)]
+    nodes = [_Rec(index=k, pos=np.array(list(p))) for k, p in enumerate(xy)]
+    cols = [_Rec(index=0, node=[nodes[q] for q in (0, 1, 4, 3)], centre=np.array([5., 5.]), surface=0.0),
+            _Rec(index=1, node=[nodes[q] for q in (1, 2, 5, 4)], centre=np.array([15., 5.]), surface=0.0)]
+    lays = [_Rec(thickness=1.0, top=0.0), _Rec(thickness=1.0, top=-1.0)]
+    return _Rec(node=nodes, column=cols, layer=lays)
+
+def task_layermesh(conv, m, spaces, just):
+    return task_gmsh(0, conv, m, spaces, just, source='layermesh')
+
+def task_gmsh(caller, conv, m, spaces, just, source='gmsh'):
+    """The REAL from_gmsh, called on a mulgrid object of naming convention `caller`, builds a
+    geometry of convention `conv` (2 columns, 6 nodes, 2 layers + surface) with a SYMBOLIC
+    custom character set of m letters: node and column names have the length of the NEW
+    geometry's convention, block names five characters, all distinct, nothing dropped,
+    NamingConventionError only when the name space of the character set is too small."""
+    M = _load().mulgrids
+    name = 'gmsh/caller%d/conv%d/m%d/%s/%s' % (caller, conv, m, 'spaces' if spaces else 'nospaces', just)
+    ob = Ob('gmsh/caller%d/conv%d' % (caller, conv))      # failure keys per (calling object's, new geometry's) convention
+    if source == 'layermesh':
+        name = 'layermesh/conv%d/m%d/%s/%s' % (conv, m, 'spaces' if spaces else 'nospaces', just)
+        ob = Ob('layermesh/conv%d' % conv)
+    cfg = dict(task='gmsh', source=source, caller=caller, conv=conv, spaces=spaces, just=just)
+    CL = name_length('column', conv)
+
+    def h(c):
+        c.exact_int_digits = True
+        s = sym_name(c, 'a', m, chars=ascii_lowercase + ascii_uppercase)
+        sc = [x.code for x in s.cells]
+        rp = lambda mdl: dict(cfg, text=model_text(mdl, s))
+        path = tiny_msh_path()
+        try:
+            with limited_recursion():
+                if source == 'layermesh':
+                    g = M.mulgrid().from_layermesh(tiny_layermesh(M.np), convention=conv, atmosphere_type=2, justify=just, chars=s, spaces=spaces)
+                else:
+                    g = M.mulgrid(convention=caller).from_gmsh(path, [1.0, 1.0], convention=conv, atmos_type=2, justify=just, chars=s, spaces=spaces)
+        except M.NamingConventionError:
+            # number of different letters decides the capacity: fork-free bound with the smallest possible set is not
+            # available, so the obligation is stated on the number of distinct letters of the input
+            nd = z3.Sum(*[z3.If(z3.And(*[sc[k] != sc[q] for q in range(k)] + [z3.BoolVal(True)]), 1, 0) for k in range(m)])
+            def cap(kind):
+                L = name_length(kind, conv)
+                if digits_kind(kind, conv): return z3.IntVal(10 ** L - 1)
+                if spaces: return z3.Sum(*[z3.Product(*([nd] * k)) for k in range(1, L + 1)])
+                return z3.Product(*([nd] * L)) - 1
+            ob.prove(c, z3.Or(6 > cap('node'), 2 > cap('layer')), 'error-only-when-exhausted', rp,
+                     'NamingConventionError although the grid fits the name space of the character set')
+            return 'exhausted'
+        except Exception as ex:
+            ob.fail(c, 'no-geometry/unexpected-exception', rp, 'from_%s raised %s instead of building the geometry: %s' % (source, type(ex).__name__, str(ex)[:120]))
+            return 'exception'
+        nodes = [x.name for x in g.nodelist]; cols = [x.name for x in g.columnlist]; lays = [x.name for x in g.layerlist]
+        ob.prove(c, len(nodes) == 6 and len(cols) == 2 and len(lays) == 3, 'nothing-dropped', rp,
+                 'the constructor made %d nodes, %d columns, %d layers instead of 6, 2, 3' % (len(nodes), len(cols), len(lays)))
+        ob.prove(c, all(len(x) == CL for x in nodes), 'node-name-length', rp, 'node name whose length is not that of the naming convention of the new geometry')
+        ob.prove(c, all(len(x) == CL for x in cols), 'column-name-length', rp, 'column name whose length is not that of the naming convention of the new geometry')
+        def chars_ok(nm):
+            cs = [code_of(x) for x in cells_of(nm)]
+            if digits_kind('column', conv): return z3.And(*[z3.Or(e == 32, is_digit(e)) for e in cs] + [z3.BoolVal(True)])
+            return z3.And(*[z3.Or(*([e == 32] + [e == a for a in sc])) for e in cs] + [z3.BoolVal(True)])
+        ob.prove(c, z3.And(*[chars_ok(x) for x in nodes + cols] + [z3.BoolVal(True)]), 'name-characters', rp,
+                 'node / column name with characters that are not those of the naming convention of the new geometry (digits for conventions 1, 2; the character set otherwise)')
+        ob.prove(c, all(len(x) == 5 - CL for x in lays), 'layer-name-length', rp, 'layer name whose length is not that of the naming convention of the new geometry')
+        def distinct(xs): return z3.And(*[z3.Not(eq_expr(a, b)) for a, b in itertools.combinations(xs, 2)] + [z3.BoolVal(True)])
+        ob.prove(c, distinct(nodes), 'node-names-distinct', rp, 'two nodes of the grid have the same name')
+        ob.prove(c, distinct(cols), 'column-names-distinct', rp, 'two columns of the grid have the same name')
+        ob.prove(c, distinct(lays), 'layer-names-distinct', rp, 'two layers of the grid have the same name')
+        blks = list(g.block_name_list)
+        ob.prove(c, len(blks) == 4 and all(len(b) == 5 for b in blks), 'block-count-and-length', rp, 'block names missing or not five characters')
+        ob.prove(c, distinct(blks), 'block-names-distinct', rp, 'two blocks of the grid have the same name')
+        want = [(l, cn) for l in lays[1:] for cn in cols]
+        if len(blks) == len(want):
+            ok = z3.And(*[z3.And(eq_expr(g.column_name(b), cn), eq_expr(g.layer_name(b), l)) for b, (l, cn) in zip(blks, want)])
+            ob.prove(c, ok, 'block-parts', rp, 'column_name / layer_name of a block of the geometry is not the column / layer it was built from')
+        if len(ob.samples) < 1:
+            ob.samples.append(dict(task=name, input=repr(s), columns=[repr(x)[:60] for x in cols[:2]], blocks=[repr(x)[:80] for x in blks[:2]]))
+        return 'grid'
+
+    res = sym.explore(h, sym.Ctx(timeout_ms=60000), max_paths=20000)
+    return ob.result(name, res)
+
+
+# ---------------------------------------------------------------------------
 # rectangular: the character-set preparation and the names of a tiny grid, end to end
 
 def task_rectangular(m, case, spaces, conv, just, nx):
@@ -966,6 +1159,17 @@ def run(tier, seed, rep):
                     for just in (('r',) if tier == 'quick' else ('r', 'l')):
                         if m == 4 and (just == 'l' or conv in (1, 2)): continue
                         tasks.append((task_rectangular, dict(m=m, case=case, spaces=spaces, conv=conv, just=just, nx=3)))
+    for conv in range(4):
+        for nl in (1, 2):
+            tasks.append((task_inversion, dict(conv=conv, n=nl)))
+    for caller in range(4):
+        for conv in range(4):
+            tasks.append((task_gmsh, dict(caller=caller, conv=conv, m=3, spaces=True, just='r')))
+            if caller == conv or tier == 'thorough':
+                tasks.append((task_gmsh, dict(caller=caller, conv=conv, m=2, spaces=False, just='l')))
+    for conv in range(4):
+        tasks.append((task_layermesh, dict(conv=conv, m=3, spaces=True, just='r')))
+        tasks.append((task_layermesh, dict(conv=conv, m=2, spaces=False, just='l')))
     for m in (1, 2):
         tasks.append((task_mapping, dict(m_entries=m)))
     if tier == 'thorough':
@@ -998,6 +1202,13 @@ def run(tier, seed, rep):
         'rectangular end to end: 3 x 1 x 2 grid, atmosphere type 1, symbolic custom character set of %s letters over a-zA-Z (repeats and both cases allowed), '
         'case None/u/l, spaces allowed or not, conventions 0-3; and the generator tasks on the sets rectangular() really passes on for '
         'ascii_letters / wWxXyYzZ%s with case u / l' % ('3' if tier == 'quick' else '2, 3, 4', '' if tier == 'quick' else ' / abracadabra'),
+        'inversion: geometries of 1 x 1 and 2 x 2 layers x columns whose layer and column names are ANY names of the convention length over letters, digits '
+        'and blanks (symbolic), conventions 0-3: block name of (last layer, last column) is the repaired concatenation, column_name / layer_name give back '
+        'the column and layer it was built from, also when block_name() repaired the name (keys inversion/conv<c>/repaired-name/<layer,column>-part)',
+        'from_gmsh end to end: mesh of 2 quadrilaterals / 6 nodes, 2 layers, atmosphere type 2, every pair (convention of the calling object, convention of the '
+        'new geometry), symbolic custom character set of 3 letters (spaces, right justified) and 2 letters (no spaces, left justified; quick: equal conventions only)',
+        'from_layermesh end to end: duck-typed mesh of the same 2 columns / 6 nodes / 2 layers, conventions 0-3, symbolic custom character set of 3 letters '
+        '(spaces, right justified) and 2 letters (no spaces, left justified), repeats and both cases allowed',
         'layer counts beyond the add_layers windows (up to 120) only by composition: numbers strictly increase (decided for the windows) + generator injectivity on [0, N] (decided); '
         '%d concrete 120-layer runs of the real add_layers agree with the prediction (validation, not a deciding step)' % n120,
     ]
@@ -1024,6 +1235,8 @@ def run(tier, seed, rep):
         'add_layers (abstract variant): the name generator returns distinct constant tokens except that one symbolic number K (or none) carries the surface layer name; '
         'this represents every injective generator because add_layers only compares names for equality; injectivity is the lemma proved by the gen tasks',
         'fix_block_mapping: keys are distinct and stay distinct after repair (two keys for the same block make the mapping contradictory)',
+        'inversion tasks: layer names pairwise different, column names pairwise different, and the block names of the geometry pairwise different '
+        "(layers ' 1' and '01' on a column ending in a digit give one block name twice; no inversion can separate them)",
         'dictionary keys of new_column_name/new_node_name have the convention length and consist of alphabet characters and blanks',
     ]
     rep.functions.update(['mulgrids.py:int_to_chars', 'mulgrids.py:new_dict_key', 'mulgrids.py:uniqstring', 'mulgrids.py:fix_blockname',
@@ -1032,7 +1245,7 @@ def run(tier, seed, rep):
                           'mulgrids.py:node_col_name_from_number', 'mulgrids.py:column_name_from_number',
                           'mulgrids.py:node_name_from_number', 'mulgrids.py:layer_name_from_number',
                           'mulgrids.py:new_node_name', 'mulgrids.py:new_column_name', 'mulgrids.py:add_layers',
-                          'mulgrids.py:set_secondary_variables', 'mulgrids.py:rectangular'])
+                          'mulgrids.py:set_secondary_variables', 'mulgrids.py:rectangular', 'mulgrids.py:from_gmsh', 'mulgrids.py:from_layermesh'])
     rep.process_failures()
     return rep.finish(rule='one obligation per (task shape, path, label): path condition AND NOT(obligation) must be unsat; '
                       'distinct = non-constant formulas deduplicated by (label, z3 AST hash) per task')
